@@ -46,6 +46,14 @@ func genC15(t *core.Tape, tier string) *Scenario {
 	}
 	stdPrograms(t, p)
 	mode := t.Pick([]int{3, 3, 3, 2}, "mode")
+	if mode != 3 && len(p.ReqMsgs) > 0 && t.Bool(1, 8, "unsendable.message") {
+		// one request message cannot be marshalled: a Send of it that begins
+		// after the instant still fails because of the context, not the codec
+		sc.Clients[0].FailCodec = true
+		i := t.Choose(len(p.ReqMsgs), "unsendable.which")
+		p.ReqMsgs[i] = append(append([]byte(nil), marshalFailMarker...), p.ReqMsgs[i]...)
+		sc.Notes["unsendable_message"]++
+	}
 	if (mode == 0 || mode == 2) && t.Bool(1, 4, "client.readmax") {
 		// a read limit the response messages may exceed: the library then
 		// discards the oversized payload, and the context may end meanwhile.
@@ -273,6 +281,11 @@ func checkC15(w *World, st core.Status, r *RunResult) []Violation {
 					sendEOF = true
 					continue
 				}
+				if inflight && strings.Contains(op.Err.Error(), "cannot be marshalled") {
+					// a competing cause that may have struck before the instant
+					r.Probes["inflight_unsendable"]++
+					continue
+				}
 				if !codeOK(op.Err) && (started || p.HErr == nil) {
 					add("send-wrong-code", fmt.Sprintf("Send failed with %v, want %v or an error wrapping io.EOF", op.Err, want))
 				}
@@ -290,6 +303,10 @@ func checkC15(w *World, st core.Status, r *RunResult) []Violation {
 					continue
 				}
 				if inflight && errors.Is(op.Err, io.EOF) && op.Op == "recv" && o.H.Returned {
+					continue
+				}
+				if inflight && !codeOK(op.Err) && strings.Contains(op.Err.Error(), "cannot be marshalled") {
+					r.Probes["inflight_unsendable"]++
 					continue
 				}
 				if inflight && !codeOK(op.Err) && readLimitDecided(w, o, &op, nrecv) {
